@@ -122,8 +122,16 @@ def call_dispatch(eng, node, fr):
             # evaluate consequent under the assumption (its partial operations may need it)
             mark = len(eng.state.pc)
             eng.state.pc.append(a)
+            dec_mark = (len(eng.decisions), eng.pos)
             try:
                 b = eng.truth(eng.eval(node.args[1], fr))
+            except PathEnd as pe:
+                if pe.why != "infeasible":
+                    raise
+                # the antecedent is unsatisfiable under the path condition: the implication holds
+                del eng.decisions[dec_mark[0]:]
+                eng.pos = dec_mark[1]
+                return VBool(True)
             finally:
                 del eng.state.pc[mark:]
             return VBool(z3.Implies(a, b))
@@ -184,6 +192,10 @@ def call_value(eng, f, args, kwargs, node, fr):
             return eng.call_function_node(modname, qual, f.node, args, dict(kwargs), node, fr)
         if k == "closure":
             eng.emit("call", qual=f.name, args=args, kwargs=kwargs, node=node, frame=fr)
+            con = eng.reg.contract(f.name)
+            if con is not None and not con.inline and f.name != eng.cur_func_qual():
+                from .contract import apply_contract
+                return apply_contract(eng, con, f.node, args, kwargs, node, fr, extra_env={"self": f.frame.self_val} if con.closure_self else None)
             return eng.call_function_node(f.modname, f.name, f.node, args, dict(kwargs), node, fr, closure_frame=f.frame)
         if k == "lambda":
             env = dict(f.frame.env)
@@ -475,7 +487,9 @@ def b_hex(eng, args, kwargs, node, fr):
         if iv is not None:
             return VStr(hex(iv), False)
         # hex(n) for n >= 0 is "0x" + hexdigits(n)
-        return VStr(z3.If(a.t >= 0, z3.Concat(z3.StringVal("0x"), F_HEXDIGITS(a.t)), z3.Concat(z3.StringVal("-0x"), F_HEXDIGITS(-a.t))), False)
+        r = VStr(z3.If(a.t >= 0, z3.Concat(z3.StringVal("0x"), F_HEXDIGITS(a.t)), z3.Concat(z3.StringVal("-0x"), F_HEXDIGITS(-a.t))), False)
+        r.l1 = True      # hex digits are ASCII
+        return r
     raise OutOfSubset("hex", node)
 
 
@@ -744,6 +758,8 @@ def str_method(eng, s, attr, args, kwargs, node, fr):
         fnz = {"lower": F_LOWER, "upper": F_UPPER, "capitalize": F_CAPITALIZE}[attr]
         r = mkstr(eng, s, fnz(s.t))
         eng.assume(z3.Length(r.t) == z3.Length(s.t))       # latin-1 case maps are length preserving (cross-checked)
+        for c in ("\r", "\n"):                            # ... and neither create nor remove CR / LF
+            eng.assume(z3.Contains(r.t, z3.StringVal(c)) == z3.Contains(s.t, z3.StringVal(c)))
         eng.emit("case_map", fn=attr, arg=s, res=r)
         return r
     if attr in ("decode", "encode"):
@@ -896,6 +912,18 @@ def str_join(eng, sep, it, node):
                 return r
         r = eng.fresh_str("joined", sep.bytes)
         eng.emit("join", sep=sep, lst=it, res=r, node=node)
+        # every character of the result belongs to the separator or to some element: name that element (witness)
+        if m.items is None and m.make_elem is not None:
+            wi = eng.fresh_int("join_witness_idx")
+            eng.assume(z3.And(wi.t >= 0, z3.Or(wi.t < m.length, m.length == 0)))
+            try:
+                w = eng.force(eng.list_elem(it, m, wi.t))
+            except Exception:
+                w = None
+            if isinstance(w, VStr):
+                for c in ("\r", "\n"):
+                    eng.assume(z3.Implies(z3.Contains(r.t, z3.StringVal(c)),
+                                          z3.Or(z3.Contains(sep.t, z3.StringVal(c)), z3.And(m.length > 0, z3.Contains(w.t, z3.StringVal(c))))))
         # join of zero elements is empty; of one element is that element
         ln = m.length if m.items is None else z3.IntVal(len(m.items))
         eng.assume(z3.Implies(ln == 0, r.t == z3.StringVal("")))
@@ -923,6 +951,8 @@ def list_extend(eng, lv, other, node):
             return
         ln = (z3.IntVal(len(m.items)) if m.items is not None else m.length) + (z3.IntVal(len(o.items)) if o.items is not None else o.length)
         check_elem_facts_list(eng, m, o, node)
+        if m.items is not None and not m.items and o.items is None:
+            m.elem_facts = list(o.elem_facts)        # [] extended by xs: exactly the elements (and element facts) of xs
         m.items = None if o.items is None or m.items is None else m.items
         if m.items is None:
             m.length = simp(ln)
